@@ -63,7 +63,12 @@ struct AtWidth {
 /// W1 < W2 are judged. Findings are recorded once per class and program, and the rate-monitored
 /// classes are counted per program (the pairs of one program are not independent).
 fn width_sweep(rng: &mut Rng, out: &mut CaseOut) {
-    let deco = if rng.bool() { crate::gen::layout::DecoOpts::none() } else { crate::gen::layout::DecoOpts::light() };
+    // (a third of the programs with many inline block comments: after colons, commas, operators)
+    let deco = match rng.below(3) {
+        0 => crate::gen::layout::DecoOpts::none(),
+        1 => crate::gen::layout::DecoOpts::light(),
+        _ => crate::gen::layout::DecoOpts { inline_block_comment: 80, ..crate::gen::layout::DecoOpts::none() },
+    };
     // every statement kind equally often (the selector ranges of gram.rs: assignment, call, exit, raise,
     // inherited, inline var/const, if, for-to, for-in, while, with, repeat, try, case, nested begin)
     let selector = *rng.pick(&[5u32, 25, 36, 39, 41, 43, 50, 62, 67, 72, 76, 80, 85, 90, 91, 92, 93, 97]);
